@@ -19,6 +19,7 @@ package manager
 import (
 	"bufio"
 	"context"
+	"crypto/sha1"
 	"encoding/hex"
 	"encoding/json"
 	"fmt"
@@ -116,6 +117,24 @@ type (
 		Webhooks   []string          `json:"webhooks"`
 		Converters []string          `json:"converters"`
 		Next       uint64            `json:"next"`
+		Pcaps      int               `json:"pcaps"`
+		Conv       map[string]string `json:"conv"` // "<converter> <stream id>" -> "<len> <sha1>" of the converter output
+		// after an import that continues a stream of the recovered state
+		ContDone    bool              `json:"cont_done"`
+		StreamsC    map[string]string `json:"streams_c"`
+		NextC       uint64            `json:"next_c"`
+		// after a second (clean) restart
+		New2     string            `json:"new2"`
+		Settled2 bool              `json:"settled2"`
+		Tags2    []c12Tag          `json:"tags2"`
+		Streams2 map[string]string `json:"streams2"`
+		Conv2    map[string]string `json:"conv2"`
+		Pcaps2   int               `json:"pcaps2"`
+	}
+	c12RecoverSpec struct {
+		Dir  string     `json:"dir"`
+		Deep bool       `json:"deep"`
+		Cont *c12Packet `json:"cont"`
 	}
 
 	c12Gates struct {
@@ -128,19 +147,25 @@ type (
 )
 
 const c12Converter = `#!/usr/bin/python3
+# deterministic converter: one client-to-server chunk (b"CONV:" + payload + b";") * 700, i.e. more
+# than the 4096 byte write buffer of the cache file
 import base64
 import json
 import sys
 
 lines = []
 while 1:
-    line = sys.stdin.readline().strip()
+    line = sys.stdin.readline()
+    if line == "":
+        sys.exit(0)
+    line = line.strip()
     if line != "":
         lines.append(json.loads(line))
         continue
+    payload = b"".join(base64.b64decode(l["Content"]) for l in lines[1:])
     print(json.dumps({
         "Direction": "client-to-server",
-        "Content": base64.b64encode(b"x").decode(),
+        "Content": base64.b64encode((b"CONV:" + payload + b";") * 700).decode(),
         "Time": "2222-02-22T22:22:22.222222"
     }))
     print()
@@ -240,7 +265,7 @@ func c12StreamText(s *index.Stream) string {
 	for _, d := range data {
 		parts = append(parts, fmt.Sprintf("%d:%s", d.Direction, hex.EncodeToString(d.Content)))
 	}
-	return fmt.Sprintf("%s>%s|", s.ClientHostIP(), s.ServerHostIP()) + strings.Join(parts, ",")
+	return fmt.Sprintf("%s:%d>%s:%d|", s.ClientHostIP(), s.ClientPort, s.ServerHostIP(), s.ServerPort) + strings.Join(parts, ",")
 }
 
 // streams visible through a stack of readers: the last reader containing an id wins
@@ -698,6 +723,121 @@ func c12ScanStateFiles(dir string) []c12StateFile {
 	return res
 }
 
+// waits until no background job runs and every tag is decided
+func c12Settle(mgr *Manager) bool {
+	deadline := time.Now().Add(c12Timeout)
+	for {
+		ok := false
+		c := make(chan struct{})
+		mgr.jobs <- func() {
+			ok = !mgr.taggingJobRunning && !mgr.converterJobRunning && !mgr.mergeJobRunning && len(mgr.importJobs) == 0
+			for _, s := range mgr.streamsToConvert {
+				if !s.IsZero() {
+					ok = false
+				}
+			}
+			for _, tg := range mgr.tags {
+				if !tg.Uncertain.IsZero() {
+					ok = false
+				}
+			}
+			close(c)
+		}
+		<-c
+		if ok {
+			return true
+		}
+		if time.Now().After(deadline) {
+			return false
+		}
+		time.Sleep(time.Millisecond)
+	}
+}
+
+// tags, streams (through the public View), fresh evaluation of every definition, converter output of
+// every stream matched by a tag the converter is attached to
+func c12Observe(mgr *Manager) (tags []c12Tag, streams map[string]string, conv map[string]string, cfg bool, hooks []string, convs []string, next uint64, pcaps int) {
+	c := make(chan struct{})
+	mgr.jobs <- func() {
+		tags = c12TagsLocked(mgr)
+		cfg = mgr.config.AutoInsertLimitToQuery
+		hooks = append([]string{}, mgr.pcapProcessorWebhookUrls...)
+		next = mgr.nextStreamID
+		pcaps = len(mgr.builder.KnownPcaps())
+		for n := range mgr.converters {
+			convs = append(convs, n)
+		}
+		sort.Strings(convs)
+		close(c)
+	}
+	<-c
+	v := mgr.GetView()
+	defer v.Release()
+	streams = map[string]string{}
+	_ = v.AllStreams(context.Background(), func(sc StreamContext) error {
+		streams[fmt.Sprint(sc.Stream().ID())] = c12StreamText(sc.Stream())
+		return nil
+	})
+	conv = map[string]string{}
+	for i := range tags {
+		tg := &tags[i]
+		tg.Fresh = []uint{}
+		q, err := query.Parse(tg.Def)
+		if err != nil {
+			tg.FreshErr = err.Error()
+			continue
+		}
+		_, _, _, err = v.SearchStreams(context.Background(), q, func(sc StreamContext) error {
+			tg.Fresh = append(tg.Fresh, uint(sc.Stream().ID()))
+			return nil
+		}, Limit(1000000, 0))
+		if err != nil {
+			tg.FreshErr = err.Error()
+		}
+		sort.Slice(tg.Fresh, func(a, b int) bool { return tg.Fresh[a] < tg.Fresh[b] })
+		for _, cn := range tg.Convs {
+			for _, id := range tg.Matches {
+				key := fmt.Sprintf("%s %d", cn, id)
+				if _, ok := conv[key]; ok {
+					continue
+				}
+				sc, err := v.Stream(uint64(id))
+				if err != nil || sc.Stream() == nil {
+					continue
+				}
+				data, err := sc.Data(cn)
+				if err != nil {
+					conv[key] = "ERR " + err.Error()
+					continue
+				}
+				h := sha1.New()
+				n := 0
+				for _, d := range data {
+					fmt.Fprintf(h, "%d:", d.Direction)
+					h.Write(d.Content)
+					n += len(d.Content)
+				}
+				conv[key] = fmt.Sprintf("%d %d %x", len(data), n, h.Sum(nil))
+			}
+		}
+	}
+	return
+}
+
+func c12CloseTimeout(mgr *Manager) bool {
+	closed := make(chan struct{})
+	go func() {
+		mgr.Close()
+		close(closed)
+	}()
+	select {
+	case <-closed:
+		return true
+	case <-time.After(c12Timeout):
+		return false
+	}
+}
+
 func TestVerifC12Recover(t *testing.T) {
 	listFile := os.Getenv("VERIF_C12_LIST")
 	if listFile == "" {
@@ -705,6 +845,10 @@ func TestVerifC12Recover(t *testing.T) {
 	}
 	raw, err := os.ReadFile(listFile)
 	if err != nil {
+		t.Fatal(err)
+	}
+	specs := []c12RecoverSpec{}
+	if err := json.Unmarshal(raw, &specs); err != nil {
 		t.Fatal(err)
 	}
 	of, err := os.Create(os.Getenv("VERIF_OUT"))
@@ -722,10 +866,8 @@ func TestVerifC12Recover(t *testing.T) {
 		out.WriteByte('\n')
 		out.Flush()
 	}
-	for _, dir := range strings.Split(strings.TrimSpace(string(raw)), "\n") {
-		if dir == "" {
-			continue
-		}
+	for _, spec := range specs {
+		dir := spec.Dir
 		d := c12Dirs(dir)
 		rec := c12Recovered{Dir: dir, Phase: "begin", IndexFiles: c12ScanIndexFiles(d["index"]), StateFiles: c12ScanStateFiles(d["state"])}
 		emit(rec)
@@ -737,81 +879,37 @@ func TestVerifC12Recover(t *testing.T) {
 			continue
 		}
 		rec.New = "ok"
-		deadline := time.Now().Add(c12Timeout)
-		for {
-			ok := false
-			c := make(chan struct{})
-			mgr.jobs <- func() {
-				ok = !mgr.taggingJobRunning && !mgr.converterJobRunning && !mgr.mergeJobRunning && len(mgr.importJobs) == 0
-				for _, s := range mgr.streamsToConvert {
-					if !s.IsZero() {
-						ok = false
-					}
+		rec.Settled = c12Settle(mgr)
+		rec.Tags, rec.Streams, rec.Conv, rec.Config, rec.Webhooks, rec.Converters, rec.Next, rec.Pcaps = c12Observe(mgr)
+		if spec.Cont != nil && rec.Settled {
+			// an import after the restart that continues a stream of the recovered state
+			if err := c12WritePcap(filepath.Join(d["pcap"], "zz-cont.pcap"), []c12Packet{*spec.Cont}); err == nil {
+				mgr.ImportPcaps([]string{"zz-cont.pcap"})
+				time.Sleep(time.Millisecond)
+				if c12Settle(mgr) {
+					rec.ContDone = true
+					_, rec.StreamsC, _, _, _, _, rec.NextC, _ = c12Observe(mgr)
 				}
-				for _, tg := range mgr.tags {
-					if !tg.Uncertain.IsZero() {
-						ok = false
-					}
-				}
-				close(c)
 			}
-			<-c
-			if ok {
-				rec.Settled = true
-				break
-			}
-			if time.Now().After(deadline) {
-				break
-			}
-			time.Sleep(time.Millisecond)
 		}
-		c := make(chan struct{})
-		mgr.jobs <- func() {
-			rec.Tags = c12TagsLocked(mgr)
-			rec.Config = mgr.config.AutoInsertLimitToQuery
-			rec.Webhooks = append([]string{}, mgr.pcapProcessorWebhookUrls...)
-			rec.Next = mgr.nextStreamID
-			for n := range mgr.converters {
-				rec.Converters = append(rec.Converters, n)
-			}
-			sort.Strings(rec.Converters)
-			close(c)
-		}
-		<-c
-		// streams and fresh tag evaluation through the public View
-		v := mgr.GetView()
-		rec.Streams = map[string]string{}
-		_ = v.AllStreams(context.Background(), func(sc StreamContext) error {
-			rec.Streams[fmt.Sprint(sc.Stream().ID())] = c12StreamText(sc.Stream())
-			return nil
-		})
-		for i := range rec.Tags {
-			tg := &rec.Tags[i]
-			tg.Fresh = []uint{}
-			q, err := query.Parse(tg.Def)
-			if err != nil {
-				tg.FreshErr = err.Error()
-				continue
-			}
-			_, _, _, err = v.SearchStreams(context.Background(), q, func(sc StreamContext) error {
-				tg.Fresh = append(tg.Fresh, uint(sc.Stream().ID()))
-				return nil
-			}, Limit(1000000, 0))
-			if err != nil {
-				tg.FreshErr = err.Error()
-			}
-			sort.Slice(tg.Fresh, func(a, b int) bool { return tg.Fresh[a] < tg.Fresh[b] })
-		}
-		v.Release()
-		closed := make(chan struct{})
-		go func() {
-			mgr.Close()
-			close(closed)
-		}()
-		select {
-		case <-closed:
-		case <-time.After(c12Timeout):
+		if !c12CloseTimeout(mgr) {
 			rec.New = "ok (Close hangs)"
+			emit(rec)
+			continue
+		}
+		if spec.Deep {
+			// second, clean restart: what the first one wrote must load again
+			mgr2, err := New(d["pcap"], d["index"], d["snapshot"], d["state"], d["converter"], d["watch"])
+			if err != nil {
+				rec.New2 = "error: " + err.Error()
+			} else {
+				rec.New2 = "ok"
+				rec.Settled2 = c12Settle(mgr2)
+				rec.Tags2, rec.Streams2, rec.Conv2, _, _, _, _, rec.Pcaps2 = c12Observe(mgr2)
+				if !c12CloseTimeout(mgr2) {
+					rec.New2 = "ok (Close hangs)"
+				}
+			}
 		}
 		emit(rec)
 	}
